@@ -39,6 +39,21 @@ CHECKS = {
  "C09": ("exploration", "exhaustive boundary grid through the virtual transport (injection + same-pipe sentinel) and end-to-end monitors over real Device chains and loops",
    "Part A injects, for each of the eight receivers and each TTL, one message per hop count k in 0..TTL+2 followed by an in-limit sentinel on the same vt pipe and requires delivery exactly when 1 <= k <= TTL (PAIR1: k-1 <= TTL), body unchanged, raw backtrace/hop field correct; the thorough tier enumerates every TTL 1..255 (exhaustive). Part B builds real mangos.Device chains of length 0..4 (0..9 thorough) for REQ/REP, SURVEY, PAIR1, STAR, PUSH/PULL, PUB/SUB, BUS with concurrent clients: every reply must return to the asking client, delivery iff within the receiver's TTL; device cycles must die out (laps bounded by TTL, silence proven by a sentinel or process quiescence).",
    "Trusted: vt injection path (bodies delivered as stream transports deliver them), the hop-count reference model written from the statement. Absence is decided by FIFO + sentinel, never by waiting.", "3/C09"),
+ "C05": ("exploration", "wire-level trace monitor over the virtual transport: every transmitted byte must be the single transmission of a reply the application sent, on the requesting connection, with the request's routing header",
+   "The harness is every REQ/SURVEYOR peer (vt pipes) of a rep/respondent/xrep/xrespondent socket with 1-6 contexts: requests with hostile routing headers (depth 0..TTL-1, words equal to pipe ids, ids repeated across connections) are injected, applications echo tags, and each logged transmission must match exactly one request on the same pipe (header byte-equal, body intact, at most once); drops before/between/after Recv and Send must not leak a reply to another connection nor block Send; a flush request per connection makes absence decidable; raw sockets are checked for pipe-id ++ header on receive and routing by that header on send.",
+   "Trusted: vt send log and injection; per-connection FIFO for the flush/sentinel argument.", "3/C05"),
+ "C06": ("exploration", "reference-model monitor: independent prefix matcher + per-context queue model over publish/subscribe/unsubscribe/receive histories with sentinel barriers; interval semantics for concurrent histories",
+   "Real pub/xpub and sub/xsub sockets (socket + contexts + a witness context) over inproc/ipc/tcp run sequential histories whose every drain must equal the modelled delivery exactly (non-matching, stale-after-Unsubscribe, duplicate, reordered, missing, modified messages are all refuted), concurrent histories judged by interval semantics (delivered => matched a subscription possibly active during the Recv interval; continuously subscribed => delivered), and overflow histories (order-preserving duplicate-free subsequence). Topics/bodies come from a small alphabet with dense prefix relations, empty and non-UTF-8 strings.",
+   "Trusted: the reference matcher and queue model; sentinel barriers rely on per-publisher FIFO. Overflow behaviour is only constrained, not predicted.", "3/C06"),
+ "C07": ("exploration", "validity monitor over the virtual transport (injection log vs deliveries, same-pipe sentinels), exact lower bound for expiry, stuck detector for 'fails promptly', interval oracle for concurrent histories",
+   "The harness is every respondent (vt pipes) of a surveyor socket with 1-3 contexts: each survey must reach every connection once; stale, foreign, malformed and other-context responses injected before the correct ones must be discarded (foreign-current ones go to their own context only); every delivery must have been injected for the current survey and not delivered before; expiry is never observed before Send-invocation + SurveyTime; Recv without a survey or after expiry fails with the protocol-state error without blocking; a new survey abandons the old one. Real surveyor/respondent sockets check that each answer reaches only the asking surveyor.",
+   "Trusted: vt logs and timestamps (taken after Send returned / before injection for the abandoned-survey rule).", "3/C07"),
+ "C19": ("exploration", "exhaustive option-grid differential against a contract table (recover() around every call) + effect monitors (stuck detector as positive witness for 'no limit', retention counts, inheritance, resize under traffic)",
+   "The finite grid 47 option names x 42 values x every object (24 protocols' sockets fresh and connected over six transports, contexts, dialers, listeners, pipes) is enumerated completely; each call must not panic, must answer nil/ErrBadOption/ErrBadValue (ErrBadProperty on pipes), must not be both supported and unsupported for one name, must reject wrong types and documented out-of-range values, and Get after an accepted Set must not return a different value. Effects: accepted zero durations mean no limit, queue lengths bound what is retained, sockets' options are inherited by later endpoints/contexts, 50 queue-length changes under traffic never disconnect a peer, unsupported operations and Device misuse fail with the designated error and leave the sockets working.",
+   "Trusted: the contract table reflects only documented ranges; values that would make the process allocate gigabytes are excluded.", "3/C19"),
+ "C20": ("exploration", "black-box differential testing of the built macat binary against independent decoders (raw/ascii/quoted/msgpack) and lock-step counting peers",
+   "The binary built from the current tree is run as a child process bound/connected over loopback tcp/ipc to harness sockets: received bodies covering every byte value and the msgpack 255/256 and 65535/65536 boundaries must decode back exactly from stdout in all four formats (one record per message, completeness by sentinel); --data/--file bytes must arrive unchanged exactly --count times (lock-step REQ/SURVEYOR/PAIR/BUS/STAR peers); bare-integer durations are checked as exact lower bounds in seconds; 20 conflicting/missing option combinations must exit non-zero with a message, print nothing and send nothing.",
+   "Trusted: the harness decoders; process start/exit timing is only used for lower bounds; a silent but alive macat is inconclusive.", "3/C20"),
 }
 
 NOT_YET = {}
